@@ -110,6 +110,13 @@ def run_case(case: Dict) -> CaseResult:
     if d.error:
         phase, sig, msg = d.error
         res.violate(f"raise:{phase}:{sig}", msg)
+    else:
+        try:
+            env.close()  # ends the session (writes the agent-action log when that is on)
+        except Exception as e:
+            from ..simutil import exc_msg, exc_sig
+
+            res.violate(f"raise:close:{exc_sig(e)}", exc_msg(e))
     res.nontrivial = bool(st["changing"] >= 1 and (d.episodes >= 2 or st["crossed"]))
     res.label("src:" + case["src"], f"episodes:{min(d.episodes, 4)}")
     if st["crossed"]:
